@@ -92,7 +92,7 @@ theorem Store.put_ok (hok : StoreOK hash st) (b : Bytes) : StoreOK hash (st.put 
 theorem SegWF.ext {st' : Store} {s : Seg} (he : StoreExt st st') (h : SegWF max hash st s) :
     SegWF max hash st' s := by
   cases s with
-  | mem buf fl => exact ⟨h.1, h.2.1, fun i l h1 h2 => he _ _ (h.2.2 i l h1 h2)⟩
+  | mem buf fl => exact ⟨h.1, h.2.1, fun i l h1 => ⟨(h.2.2 i l h1).1, fun h2 => he _ _ ((h.2.2 i l h1).2 h2)⟩⟩
   | stored loc size off l =>
     obtain ⟨h1, h2, b, hb, hl⟩ := h
     exact ⟨h1, h2, b, he _ _ hb, hl⟩
